@@ -466,6 +466,7 @@ func runBlock(r *simk.Run, f focus) *simk.Violation {
 		}
 		// balances: mostly ample, sometimes exactly the fees or one short
 		balMode := c.Weighted(8, 1, 1, 1)
+		memoKeys := c.Bool(0.3) // the balance handler hands out one cached sponsor key set (read-only by contract)
 		for i := 0; i < nSponsors; i++ {
 			kv[string(envBalKey(sp[i]))] = binary.BigEndian.AppendUint64(nil, balances[i])
 		}
@@ -655,6 +656,9 @@ func runBlock(r *simk.Run, f focus) *simk.Violation {
 			// also for one core; SerialWorkers is not used with the asynchronous AuthBatch
 			w := workers.NewParallel(sigW, 4)
 			defer w.Stop()
+			if memoKeys && env.BHx == nil {
+				env.BHx = NewMemoBH(env.handler())
+			}
 			proc, err := env.Processor(ctx, w, cfg)
 			if err != nil {
 				return nil, err
